@@ -6,16 +6,89 @@ mod c01;
 mod c03;
 mod c04;
 mod c07;
+mod c09;
+mod c10;
+mod c11;
+mod evmodel;
+mod refcal;
+mod shash;
 mod c19;
 mod eventgen;
+mod fwd;
 mod c20;
 mod procsim;
 mod pwbview;
 
 use simcore::Check;
 
+fn fwdprobe(n: u64) {
+    use alpha_g_physics::MainEvent;
+    use uom::si::length::meter;
+    let mut ok = 0;
+    let mut dz = Vec::new();
+    let mut dt = Vec::new();
+    let t0 = std::time::Instant::now();
+    for i in 0..n {
+        let mut r = simcore::Rng::new(1000 + i);
+        let nt = r.usize(2, 4);
+        let ev = fwd::random_event(&mut r, nt, 0.0);
+        let banks = fwd::banks(&ev);
+        let res = MainEvent::try_from_banks(u32::MAX, banks.iter().map(|(n, d)| (n.as_str(), &d[..])));
+        match res {
+            Err(e) => println!("event {i}: build error {e:?}"),
+            Ok(me) => {
+                let av = me.avalanches();
+                let v = me.vertex();
+                if i < 5 {
+                    println!("event {i}: {} banks, {} model avalanches, {} reconstructed avalanches, vertex {:?}", banks.len(), fwd::avalanches(&ev).len(), av.len(), v.map(|c| (c.x.get::<meter>(), c.y.get::<meter>(), c.z.get::<meter>())));
+                }
+                if let Some(c) = v {
+                    ok += 1;
+                    dz.push((c.z.get::<meter>() - ev.vertex[2]).abs());
+                    dt.push(((c.x.get::<meter>() - ev.vertex[0]).powi(2) + (c.y.get::<meter>() - ev.vertex[1]).powi(2)).sqrt());
+                }
+            }
+        }
+    }
+    dz.sort_by(|a, b| a.partial_cmp(b).unwrap());
+    dt.sort_by(|a, b| a.partial_cmp(b).unwrap());
+    let q = |v: &Vec<f64>, p: f64| if v.is_empty() { f64::NAN } else { v[((v.len() - 1) as f64 * p) as usize] };
+    println!("vertex found in {ok}/{n}; |dz| median {:.4} p90 {:.4}; transverse median {:.4}; {:.1} ms/event", q(&dz, 0.5), q(&dz, 0.9), q(&dt, 0.5), t0.elapsed().as_secs_f64() * 1e3 / n as f64);
+}
+
 fn main() {
-    let checks: Vec<&'static dyn Check> = vec![&c03::C03, &c04::C04, &c07::C07, &c20::C20, &c19::C19, &c01::C01];
+    let a: Vec<String> = std::env::args().collect();
+    if a.len() >= 3 && a[1] == "c11digest" {
+        simcore::driver::install_panic_hook();
+        let p = a[2].clone();
+        let code = std::thread::Builder::new().stack_size(256 << 20).spawn(move || c11::child_main(&p)).unwrap().join().unwrap_or(2);
+        std::process::exit(code);
+    }
+    if a.len() >= 4 && a[1] == "dumpc09" {
+        dump_c09_file(&a[2], &a[3]);
+        return;
+    }
+    if a.len() >= 3 && a[1] == "fwdprobe" {
+        let n = a[2].parse().unwrap_or(20);
+        std::thread::Builder::new().stack_size(512 << 20).spawn(move || fwdprobe(n)).unwrap().join().unwrap();
+        return;
+    }
+    let checks: Vec<&'static dyn Check> = vec![&c03::C03, &c04::C04, &c07::C07, &c20::C20, &c19::C19, &c01::C01, &c10::C10, &c09::C09, &c11::C11];
     let code = simcore::driver::main_entry(&checks);
     std::process::exit(code);
+}
+
+#[allow(dead_code)]
+pub fn dump_c09_file(replay: &str, out: &str) {
+    let v: serde_json::Value = serde_json::from_slice(&std::fs::read(replay).unwrap()).unwrap();
+    let scn = &v["scenario"];
+    let seed = scn["seed"].as_u64().unwrap();
+    let events: Vec<c09::Kind> = serde_json::from_value(scn["kind"]["File"]["events"].clone()).unwrap();
+    let mut mf = daqmodel::midas::MidasFile { big_endian: false, run_number: u32::MAX, initial_timestamp: 100, final_timestamp: 200, initial_odb: vec![], final_odb: vec![], events: vec![] };
+    for (k, e) in events.iter().enumerate() {
+        let (_run, banks) = c09::kind_banks(e, seed ^ k as u64);
+        let banks = banks.into_iter().filter(|(n, _)| n.len() == 4 && n.bytes().all(|c| c.is_ascii_alphanumeric())).map(|(name, data)| daqmodel::midas::Bank { name, data }).collect();
+        mf.events.push(daqmodel::midas::Event { id: 1, mask: 0, serial: 1000 + k as u32, timestamp: 0, width: daqmodel::midas::BankWidth::B32, banks });
+    }
+    std::fs::write(out, mf.encode()).unwrap();
 }
